@@ -72,11 +72,14 @@ def rules(t):
             if resub and "SliceConstructor::process_slice" in fmt(a): continue
             r.site(s)
             ok = False
-            for br, op, te, fe in t.find_cmp(f, lambda x: t.mentions_field(x, "memory_usage_bytes") and "AddWithOverflow" in fmt(x), lambda y: t.is_field(y, "max_memory_usage_bytes"), None):
-                if op != "Gt": continue
-                lhs = br["cond"][2] if t.mentions_field(br["cond"][2], "memory_usage_bytes") else br["cond"][3]
-                if a is not None and norm(a) not in [norm(x) for x in (strip(lhs)[1][3],)] if (isinstance(strip(lhs), tuple) and strip(lhs)[0] == "field" and strip(lhs)[1][0] == "bin") else False: continue
-                if t.edge_dominates(f, fe, s.bb): ok = True
+            def usage_plus(x):
+                xs = strip(x)
+                if not (t.mentions_field(x, "memory_usage_bytes") and "AddWithOverflow" in fmt(x)): return False
+                if a is None: return True
+                return isinstance(xs, tuple) and xs[0] == "field" and isinstance(xs[1], tuple) and xs[1][0] == "bin" and norm(xs[1][3]) == norm(a)
+            # the store lies on an edge where `usage + x <= max` is known (however the test is written: `> max -> refuse`, `<= max -> accept`, negations)
+            for e, br in rel_edges(t, f, usage_plus, lambda y: t.is_field(y, "max_memory_usage_bytes"), "Le"):
+                if t.edge_dominates(f, e, s.bb): ok = True
             if not ok: r.bad(f"{f.path}|unguarded|{fmt(a)[:40] if a else ''}", s, "memory_usage_bytes increased without the budget test on the same amount")
     out.append(r)
 
